@@ -1,9 +1,10 @@
 (* proofs for Lang/Order.v (C10) *)
-From Coq Require Import ZArith List Bool Permutation Lia.
+From Coq Require Import ZArith List Bool Permutation Sorted Lia.
 From RV Require Import Base.Wire Base.Text Lang.Order.
 Import ListNotations.
 Open Scope Z_scope.
 
+(* ================================================================ statelessness *)
 Lemma session_pure sigma before p after :
   nth_error (session sigma (before ++ p :: after)) (List.length before) = Some (transl sigma p).
 Proof.
@@ -11,3 +12,588 @@ Proof.
   rewrite nth_error_app2 by (rewrite map_length; lia).
   rewrite map_length, Nat.sub_diag. reflexivity.
 Qed.
+
+(* the output for a program in a session does not depend on the other programs of the session *)
+Lemma session_independent sigma before1 after1 before2 after2 p :
+  nth_error (session sigma (before1 ++ p :: after1)) (List.length before1) =
+  nth_error (session sigma (before2 ++ p :: after2)) (List.length before2).
+Proof. rewrite !session_pure. reflexivity. Qed.
+
+(* ================================================================ the order on names *)
+Lemma text_leb_refl a : text_leb a a = true.
+Proof. induction a as [|x a IH]; cbn; [reflexivity|]. rewrite Z.ltb_irrefl. exact IH. Qed.
+
+Lemma text_leb_total a b : text_leb a b = true \/ text_leb b a = true.
+Proof.
+  revert b; induction a as [|x a IH]; intros [|y b]; cbn; auto.
+  destruct (x <? y) eqn:E1; auto.
+  destruct (y <? x) eqn:E2; auto.
+Qed.
+
+Lemma text_leb_antisym a b : text_leb a b = true -> text_leb b a = true -> a = b.
+Proof.
+  revert b; induction a as [|x a IH]; intros [|y b]; cbn; try discriminate; auto.
+  destruct (x <? y) eqn:E1; destruct (y <? x) eqn:E2; try discriminate.
+  - apply Z.ltb_lt in E1. apply Z.ltb_lt in E2. lia.
+  - intros H1 H2. apply Z.ltb_ge in E1. apply Z.ltb_ge in E2.
+    assert (x = y) by lia. subst. f_equal. auto.
+Qed.
+
+Lemma text_leb_trans a b c : text_leb a b = true -> text_leb b c = true -> text_leb a c = true.
+Proof.
+  revert b c; induction a as [|x a IH]; intros [|y b] [|z c]; cbn; try discriminate; auto.
+  destruct (x <? y) eqn:E1.
+  - apply Z.ltb_lt in E1. intros _.
+    destruct (y <? z) eqn:E2.
+    + apply Z.ltb_lt in E2. intros _. assert (x <? z = true) as -> by (apply Z.ltb_lt; lia). reflexivity.
+    + destruct (z <? y) eqn:E3; [discriminate|]. apply Z.ltb_ge in E2. apply Z.ltb_ge in E3.
+      intros _. assert (x <? z = true) as -> by (apply Z.ltb_lt; lia). reflexivity.
+  - destruct (y <? x) eqn:E1'; [discriminate|]. apply Z.ltb_ge in E1. apply Z.ltb_ge in E1'.
+    assert (x = y) by lia. subst y. intros H1.
+    destruct (x <? z) eqn:E2; [reflexivity|].
+    destruct (z <? x) eqn:E3; [discriminate|]. eauto.
+Qed.
+
+Definition tle (a b : text) : Prop := text_leb a b = true.
+
+(* ================================================================ insertion sort *)
+Lemma insert_perm x l : Permutation (insert x l) (x :: l).
+Proof.
+  induction l as [|y r IH]; cbn; [reflexivity|].
+  destruct (text_leb x y); [reflexivity|].
+  rewrite IH. apply perm_swap.
+Qed.
+
+Lemma sort_perm l : Permutation (sort l) l.
+Proof.
+  induction l as [|x r IH]; cbn; [reflexivity|].
+  rewrite insert_perm. constructor. exact IH.
+Qed.
+
+Lemma insert_sorted x l : StronglySorted tle l -> StronglySorted tle (insert x l).
+Proof.
+  induction l as [|y r IH]; cbn; intros H.
+  - constructor; constructor.
+  - destruct (text_leb x y) eqn:E.
+    + constructor; [exact H|]. constructor; [exact E|].
+      inversion H as [|? ? _ Hall]; subst.
+      eapply Forall_impl; [|exact Hall]. intros z Hz. eapply text_leb_trans; eauto.
+    + inversion H as [|? ? Hr Hall]; subst.
+      constructor; [auto|].
+      assert (tle y x) as Hyx by (destruct (text_leb_total x y) as [A|A]; [congruence|exact A]).
+      eapply Permutation_Forall; [symmetry; apply insert_perm|].
+      constructor; assumption.
+Qed.
+
+Lemma sort_sorted l : StronglySorted tle (sort l).
+Proof. induction l as [|x r IH]; cbn; [constructor|apply insert_sorted; exact IH]. Qed.
+
+Lemma sorted_perm_unique l1 : forall l2,
+  StronglySorted tle l1 -> StronglySorted tle l2 -> Permutation l1 l2 -> l1 = l2.
+Proof.
+  induction l1 as [|x r1 IH]; intros l2 H1 H2 HP.
+  - apply Permutation_nil in HP. auto.
+  - destruct l2 as [|y r2]; [symmetry in HP; apply Permutation_nil in HP; discriminate|].
+    inversion H1 as [|? ? Hr1 Ha1]; subst. inversion H2 as [|? ? Hr2 Ha2]; subst.
+    assert (x = y) as ->.
+    { assert (In x (y :: r2)) as Ix by (eapply Permutation_in; [exact HP|left; reflexivity]).
+      assert (In y (x :: r1)) as Iy by (eapply Permutation_in; [symmetry; exact HP|left; reflexivity]).
+      destruct Ix as [->|Ix]; [reflexivity|]. destruct Iy as [->|Iy]; [reflexivity|].
+      rewrite Forall_forall in Ha1, Ha2. apply text_leb_antisym; [apply Ha1|apply Ha2]; assumption. }
+    f_equal. apply IH; auto. eapply Permutation_cons_inv; exact HP.
+Qed.
+
+Lemma sort_of_perm l1 l2 : Permutation l1 l2 -> sort l1 = sort l2.
+Proof.
+  intros HP. apply sorted_perm_unique; try apply sort_sorted.
+  rewrite !sort_perm. exact HP.
+Qed.
+
+(* sorted(<set>) does not depend on the iteration order of the set *)
+Lemma sorted_site_independent s1 s2 l :
+  perm_oracle s1 -> perm_oracle s2 -> sorted_site s1 l = sorted_site s2 l.
+Proof.
+  intros H1 H2. unfold sorted_site. apply sort_of_perm.
+  rewrite (H1 l), (H2 l). reflexivity.
+Qed.
+
+(* ... and is the sorted arrangement of the elements *)
+Lemma sorted_site_spec s l :
+  perm_oracle s -> StronglySorted tle (sorted_site s l) /\ Permutation (sorted_site s l) l.
+Proof.
+  intros H. unfold sorted_site. split; [apply sort_sorted|]. rewrite sort_perm. apply H.
+Qed.
+
+(* <set>.pop() on a one-element set *)
+Lemma pop_site_singleton s x : perm_oracle s -> pop_site s [x] = Some x.
+Proof.
+  intros H. unfold pop_site. specialize (H [x]).
+  apply Permutation_sym, Permutation_length_1_inv in H. rewrite H. reflexivity.
+Qed.
+
+(* ================================================================ small lists have one order *)
+Lemma perm_small (l l' : list ident) : (List.length l <= 1)%nat -> Permutation l' l -> l' = l.
+Proof.
+  destruct l as [|x [|y r]]; cbn; intros HL HP.
+  - apply Permutation_sym, Permutation_nil in HP. exact HP.
+  - apply Permutation_sym, Permutation_length_1_inv in HP. exact HP.
+  - lia.
+Qed.
+
+Lemma fold_left_ext_in {A B} (f g : A -> B -> A) l : forall a,
+  (forall a b, In b l -> f a b = g a b) -> fold_left f l a = fold_left g l a.
+Proof.
+  induction l as [|b r IH]; cbn; intros a H; [reflexivity|].
+  rewrite H by (left; reflexivity). apply IH. intros; apply H; right; assumption.
+Qed.
+
+(* ================================================================ construct level: _partial *)
+Lemma promote_branch_small s1 s2 parent acc br :
+  perm_oracle s1 -> perm_oracle s2 -> (List.length br <= 1)%nat ->
+  promote_branch s1 parent acc br = promote_branch s2 parent acc br.
+Proof.
+  intros H1 H2 HL. unfold promote_branch.
+  assert (List.length (map fst br) <= 1)%nat as HL' by (rewrite map_length; exact HL).
+  rewrite (perm_small _ _ HL' (H1 _)), (perm_small _ _ HL' (H2 _)). reflexivity.
+Qed.
+
+Lemma add_new_keeps acc x y : In y acc -> In y (add_new acc x).
+Proof. unfold add_new. destruct (tmem x acc); [auto|]. intros; apply in_or_app; auto. Qed.
+
+Lemma add_new_has acc x : In x (add_new acc x).
+Proof.
+  unfold add_new. destruct (tmem x acc) eqn:E.
+  - apply tmem_In; exact E.
+  - apply in_or_app; right; left; reflexivity.
+Qed.
+
+Lemma fold_add_new_keeps l : forall acc y, In y acc -> In y (fold_left add_new l acc).
+Proof. induction l as [|x r IH]; cbn; intros; [assumption|]. apply IH, add_new_keeps; assumption. Qed.
+
+Lemma fold_add_new_has l : forall acc y, In y l -> In y (fold_left add_new l acc).
+Proof.
+  induction l as [|x r IH]; cbn; intros acc y H; [contradiction|].
+  destruct H as [->|H].
+  - apply fold_add_new_keeps, add_new_has.
+  - apply IH; assumption.
+Qed.
+
+Lemma fold_add_new_known l : forall acc, (forall y, In y l -> In y acc) -> fold_left add_new l acc = acc.
+Proof.
+  induction l as [|x r IH]; cbn; intros acc H; [reflexivity|].
+  assert (add_new acc x = acc) as ->.
+  { unfold add_new. assert (tmem x acc = true) as -> by (apply tmem_In; apply H; left; reflexivity). reflexivity. }
+  apply IH. intros; apply H; right; assumption.
+Qed.
+
+Lemma loop_order_guarded s d names :
+  perm_oracle s -> forallb (fun x => tmem x d) names = true ->
+  loop_order s d names = fold_left add_new (filter (fun x => tmem x names) d) [].
+Proof.
+  intros HP HG. unfold loop_order. apply fold_add_new_known.
+  intros y Hy. apply fold_add_new_has. apply filter_In.
+  assert (In y names) as Hn by (eapply Permutation_in; [apply HP|exact Hy]).
+  rewrite forallb_forall in HG. split; [apply tmem_In, HG, Hn|apply tmem_In, Hn].
+Qed.
+
+Lemma promote_guarded s1 s2 c :
+  perm_oracle s1 -> perm_oracle s2 -> guard c = true -> promote s1 c = promote s2 c.
+Proof.
+  intros H1 H2 HG. destruct c as [parent brs|d pr]; cbn in *.
+  - unfold promote_if. apply fold_left_ext_in. intros acc br Hbr.
+    rewrite forallb_forall in HG. specialize (HG br Hbr). apply Nat.leb_le in HG.
+    apply promote_branch_small; assumption.
+  - unfold promote_loop. rewrite (loop_order_guarded s1), (loop_order_guarded s2) by assumption.
+    reflexivity.
+Qed.
+
+(* ================================================================ construct level: refuted, and the guard is tight *)
+Definition sid (l : list ident) : list ident := l.
+Definition srev (l : list ident) : list ident := rev l.
+
+Lemma sid_perm : perm_oracle sid.
+Proof. intros l. reflexivity. Qed.
+
+Lemma srev_perm : perm_oracle srev.
+Proof. intros l. symmetry. apply Permutation_rev. Qed.
+
+(* two distinct new names in one branch: the two oracles give two different orders, whatever the names and types *)
+Lemma promote_if_two_names parent x y tx ty :
+  x <> y -> tmem x parent = false -> tmem y parent = false ->
+  promote sid (CIf parent [[(x, tx); (y, ty)]]) <> promote srev (CIf parent [[(x, tx); (y, ty)]]).
+Proof.
+  intros Hxy Hx Hy.
+  assert (text_eqb y x = false) as Eyx.
+  { destruct (text_eqb y x) eqn:E; [|reflexivity]. apply text_eqb_eq in E. congruence. }
+  assert (text_eqb x y = false) as Exy.
+  { destruct (text_eqb x y) eqn:E; [|reflexivity]. apply text_eqb_eq in E. congruence. }
+  cbn. unfold promote_if, promote_branch, record, sid, srev, type_in. cbn.
+  rewrite ?Hx, ?Hy, ?text_eqb_refl, ?Exy, ?Eyx. cbn.
+  rewrite ?Hx, ?Hy, ?text_eqb_refl, ?Exy, ?Eyx. cbn.
+  rewrite ?Hx, ?Hy, ?text_eqb_refl, ?Exy, ?Eyx. cbn.
+  intros [= E _]. congruence.
+Qed.
+
+(* a loop body that declares two new names which _collect_order does not meet (they sit in a try statement) *)
+Lemma promote_loop_two_names x y tx ty :
+  x <> y ->
+  promote sid (CLoop [] [(x, tx); (y, ty)]) <> promote srev (CLoop [] [(x, tx); (y, ty)]).
+Proof.
+  intros Hxy.
+  assert (text_eqb y x = false) as Eyx.
+  { destruct (text_eqb y x) eqn:E; [|reflexivity]. apply text_eqb_eq in E. congruence. }
+  assert (text_eqb x y = false) as Exy.
+  { destruct (text_eqb x y) eqn:E; [|reflexivity]. apply text_eqb_eq in E. congruence. }
+  cbn. unfold promote_loop, loop_order, sid, srev, add_new, type_in. cbn.
+  rewrite ?text_eqb_refl, ?Exy, ?Eyx. cbn. rewrite ?text_eqb_refl, ?Exy, ?Eyx. cbn.
+  intros [= E _]. congruence.
+Qed.
+
+(* ================================================================ program level *)
+(* induction over statements with nested lists of bodies *)
+Section StmtInd.
+  Variable Q : stmt -> Prop.
+  Hypothesis HA : forall x t, Q (SAssign x t).
+  Hypothesis HIf : forall o brs, Forall (Forall Q) brs -> Q (SIf o brs).
+  Hypothesis HWh : forall o body, Forall Q body -> Q (SWhile o body).
+  Hypothesis HFor : forall o v body, Forall Q body -> Q (SFor o v body).
+  Hypothesis HTry : forall o brs, Forall (Forall Q) brs -> Q (STry o brs).
+
+  Fixpoint stmt_ind' (s : stmt) : Q s :=
+    let fix blk (l : list stmt) : Forall Q l :=
+      match l with
+      | [] => Forall_nil Q
+      | x :: r => Forall_cons x (stmt_ind' x) (blk r)
+      end in
+    let fix blks (l : list (list stmt)) : Forall (Forall Q) l :=
+      match l with
+      | [] => Forall_nil (Forall Q)
+      | b :: r => Forall_cons b (blk b) (blks r)
+      end in
+    match s with
+    | SAssign x t => HA x t
+    | SIf o brs => HIf o brs (blks brs)
+    | SWhile o body => HWh o body (blk body)
+    | SFor o v body => HFor o v body (blk body)
+    | STry o brs => HTry o brs (blks brs)
+    end.
+End StmtInd.
+
+(* walk_stmt with its local block walker replaced by walk_block *)
+Lemma walk_stmt_eq P glob s c :
+  walk_stmt P glob s c =
+  match s with
+  | SAssign x t =>
+      let tys := (x, t) :: types c in
+      if tmem x (declared c) then mk_wres [NAssign x] (mk_pctx (declared c) tys) [] true
+      else if glob then mk_wres [] (mk_pctx (declared c ++ [x]) tys) [(x, t)] true
+      else mk_wres [NDecl x t] (mk_pctx (declared c ++ [x]) tys) [] true
+  | SIf o brs =>
+      let rs := map (fun b => walk_block P b c) brs in
+      finish P glob c o (CIf (declared c) (map (fun r => new_decls c (w_ctx r)) rs))
+             (forallb w_ok rs)
+             (fun ps => NIf (map (fun r => map (rw_if ps) (w_nodes r)) rs))
+  | STry o brs =>
+      let rs := map (fun b => walk_block P b c) brs in
+      finish P glob c o (CIf (declared c) (map (fun r => new_decls c (w_ctx r)) rs))
+             (forallb w_ok rs)
+             (fun ps => NTry (map (fun r => map (rw_all ps) (w_nodes r)) rs))
+  | SWhile o body =>
+      let r := walk_block P body c in
+      finish P glob c o (CLoop (flat_map decl_names (w_nodes r)) (new_decls c (w_ctx r)))
+             (w_ok r)
+             (fun ps => NWhile (map (rw_all ps) (w_nodes r)))
+  | SFor o v body =>
+      let cv := mk_pctx (declared c ++ [v]) ((v, 0) :: types c) in
+      let r := walk_block P body cv in
+      finish P glob c o (CLoop (flat_map decl_names (w_nodes r)) (new_decls cv (w_ctx r)))
+             (w_ok r)
+             (fun ps => NFor v (map (rw_all ps) (w_nodes r)))
+  end.
+Proof. destruct s; reflexivity. Qed.
+
+Section Agree.
+  Variables P1 P2 : otag -> construct -> list decl.
+  Hypothesis HP : forall o c, guard c = true -> P1 o c = P2 o c.
+
+  Definition agree_stmt (s : stmt) : Prop :=
+    forall glob c, w_ok (walk_stmt P1 glob s c) = true -> walk_stmt P1 glob s c = walk_stmt P2 glob s c.
+
+  Lemma walk_block_agree l : Forall agree_stmt l ->
+    forall c, w_ok (walk_block P1 l c) = true -> walk_block P1 l c = walk_block P2 l c.
+  Proof.
+    induction 1 as [|s r Hs Hr IH]; intros c Hok; [reflexivity|].
+    cbn [walk_block] in *. cbn [w_ok] in Hok. apply andb_true_iff in Hok as [H1 H2].
+    rewrite <- (Hs false c H1). rewrite <- (IH _ H2). reflexivity.
+  Qed.
+
+  Lemma map_walk_agree brs c : Forall (Forall agree_stmt) brs ->
+    forallb w_ok (map (fun b => walk_block P1 b c) brs) = true ->
+    map (fun b => walk_block P1 b c) brs = map (fun b => walk_block P2 b c) brs.
+  Proof.
+    induction 1 as [|b r Hb Hr IH]; cbn; intros Hok; [reflexivity|].
+    apply andb_true_iff in Hok as [H1 H2].
+    rewrite (walk_block_agree b Hb c H1), (IH H2). reflexivity.
+  Qed.
+
+  Lemma finish_agree glob base o c inner mk :
+    inner && guard c = true -> finish P1 glob base o c inner mk = finish P2 glob base o c inner mk.
+  Proof.
+    intros H. apply andb_true_iff in H as [_ HG]. unfold finish. rewrite (HP o c HG). reflexivity.
+  Qed.
+
+  Lemma walk_stmt_agree s : agree_stmt s.
+  Proof.
+    induction s as [x t|o brs IH|o body IH|o v body IH|o brs IH] using stmt_ind';
+      intros glob c; rewrite !walk_stmt_eq; cbv zeta.
+    - reflexivity.
+    - intros Hok. unfold finish in Hok at 1. cbn [w_ok] in Hok.
+      pose proof Hok as Hok'. apply andb_true_iff in Hok' as [Hin _].
+      rewrite <- (map_walk_agree brs c IH Hin). apply finish_agree. exact Hok.
+    - intros Hok. unfold finish in Hok at 1. cbn [w_ok] in Hok.
+      pose proof Hok as Hok'. apply andb_true_iff in Hok' as [Hin _].
+      rewrite <- (walk_block_agree body IH c Hin). apply finish_agree. exact Hok.
+    - intros Hok. unfold finish in Hok at 1. cbn [w_ok] in Hok.
+      pose proof Hok as Hok'. apply andb_true_iff in Hok' as [Hin _].
+      rewrite <- (walk_block_agree body IH _ Hin). apply finish_agree. exact Hok.
+    - intros Hok. unfold finish in Hok at 1. cbn [w_ok] in Hok.
+      pose proof Hok as Hok'. apply andb_true_iff in Hok' as [Hin _].
+      rewrite <- (map_walk_agree brs c IH Hin). apply finish_agree. exact Hok.
+  Qed.
+
+  Lemma walk_block_agree' l c :
+    w_ok (walk_block P1 l c) = true -> walk_block P1 l c = walk_block P2 l c.
+  Proof. apply walk_block_agree. apply Forall_forall. intros s _. apply walk_stmt_agree. Qed.
+
+  Lemma walk_item_agree st it :
+    o_ok (p_out (walk_item P1 st it)) = true -> walk_item P1 st it = walk_item P2 st it.
+  Proof.
+    destruct it as [s|f body|body]; cbn [walk_item p_out o_ok]; intros Hok;
+      apply andb_true_iff in Hok as [_ Hr].
+    - rewrite <- (walk_stmt_agree s true _ Hr). reflexivity.
+    - rewrite <- (walk_block_agree' body _ Hr). reflexivity.
+    - rewrite <- (walk_block_agree' body _ Hr). reflexivity.
+  Qed.
+
+  Lemma walk_item_ok_mono P st it : o_ok (p_out (walk_item P st it)) = true -> o_ok (p_out st) = true.
+  Proof.
+    destruct it; cbn [walk_item p_out o_ok]; intros H; apply andb_true_iff in H as [H _]; exact H.
+  Qed.
+
+  Lemma fold_walk_ok_mono P p : forall st,
+    o_ok (p_out (fold_left (walk_item P) p st)) = true -> o_ok (p_out st) = true.
+  Proof.
+    induction p as [|it r IH]; cbn [fold_left]; intros st H; [exact H|].
+    eapply walk_item_ok_mono. apply IH. exact H.
+  Qed.
+
+  Lemma fold_walk_agree p : forall st,
+    o_ok (p_out (fold_left (walk_item P1) p st)) = true ->
+    fold_left (walk_item P1) p st = fold_left (walk_item P2) p st.
+  Proof.
+    induction p as [|it r IH]; cbn [fold_left]; intros st H; [reflexivity|].
+    pose proof (fold_walk_ok_mono P1 r _ H) as H1.
+    rewrite <- (walk_item_agree st it H1). apply IH. exact H.
+  Qed.
+
+  Lemma walk_prog_agree p : o_ok (walk_prog P1 p) = true -> walk_prog P1 p = walk_prog P2 p.
+  Proof. unfold walk_prog. intros H. rewrite (fold_walk_agree p _ H). reflexivity. Qed.
+End Agree.
+
+(* the _partial theorem for whole programs of the modelled fragment: if every construct met is inside the guard,
+   the translation does not depend on the iteration orders *)
+Lemma transl_guarded s1 s2 p :
+  perm_family s1 -> perm_family s2 -> o_ok (transl s1 p) = true -> transl s1 p = transl s2 p.
+Proof.
+  intros H1 H2. unfold transl. apply walk_prog_agree.
+  intros o c HG. apply promote_guarded; [apply H1|apply H2|exact HG].
+Qed.
+
+(* a session of guarded programs: every output is oracle independent and independent of the rest of the session *)
+Lemma session_guarded s1 s2 ps :
+  perm_family s1 -> perm_family s2 ->
+  forallb (fun p => o_ok (transl s1 p)) ps = true -> session s1 ps = session s2 ps.
+Proof.
+  intros H1 H2 H. unfold session. apply map_ext_in. intros p Hp.
+  rewrite forallb_forall in H. apply transl_guarded; auto.
+Qed.
+
+(* ================================================================ only the ORDER can vary *)
+Section FoldPerm.
+  Variables A B : Type.
+  Variable f : list A -> B -> list A.
+  Hypothesis Hresp : forall a a' b, Permutation a a' -> Permutation (f a b) (f a' b).
+  Hypothesis Hcomm : forall a b1 b2, Permutation (f (f a b1) b2) (f (f a b2) b1).
+
+  Lemma fold_resp l : forall a a', Permutation a a' -> Permutation (fold_left f l a) (fold_left f l a').
+  Proof. induction l as [|b r IH]; cbn; intros a a' H; [exact H|]. apply IH, Hresp, H. Qed.
+
+  Lemma fold_perm l l' : Permutation l l' ->
+    forall a a', Permutation a a' -> Permutation (fold_left f l a) (fold_left f l' a').
+  Proof.
+    induction 1 as [|x l l' _ IH|x y l|l l' l'' _ IH1 _ IH2]; intros a a' Ha.
+    - exact Ha.
+    - cbn. apply IH, Hresp, Ha.
+    - cbn. apply fold_resp. rewrite Hcomm. apply Hresp, Hresp, Ha.
+    - rewrite (IH1 a a (Permutation_refl a)). apply IH2. exact Ha.
+  Qed.
+End FoldPerm.
+
+Lemma tmem_perm x l l' : Permutation l l' -> tmem x l = tmem x l'.
+Proof.
+  intros H. destruct (tmem x l) eqn:E1; destruct (tmem x l') eqn:E2; try reflexivity.
+  - apply tmem_In in E1. assert (In x l') as I by (eapply Permutation_in; eauto).
+    apply tmem_In in I. congruence.
+  - apply tmem_In in E2. assert (In x l) as I by (eapply Permutation_in; [symmetry|]; eauto).
+    apply tmem_In in I. congruence.
+Qed.
+
+Lemma tmem_app x l1 l2 : tmem x (l1 ++ l2) = tmem x l1 || tmem x l2.
+Proof. induction l1 as [|y r IH]; cbn; [reflexivity|]. rewrite IH, orb_assoc. reflexivity. Qed.
+
+Lemma text_eqb_sym a b : text_eqb a b = text_eqb b a.
+Proof.
+  destruct (text_eqb a b) eqn:E1; destruct (text_eqb b a) eqn:E2; try reflexivity.
+  - apply text_eqb_eq in E1. subst. rewrite text_eqb_refl in E2. discriminate.
+  - apply text_eqb_eq in E2. subst. rewrite text_eqb_refl in E1. discriminate.
+Qed.
+
+Lemma record_resp parent br a a' x :
+  Permutation a a' -> Permutation (record parent br a x) (record parent br a' x).
+Proof.
+  intros H. unfold record. rewrite (tmem_perm x (map fst a) (map fst a')) by (apply Permutation_map, H).
+  destruct (tmem x parent || tmem x (map fst a')); [exact H|]. apply Permutation_app_tail, H.
+Qed.
+
+Lemma record_comm parent br a x y :
+  Permutation (record parent br (record parent br a x) y) (record parent br (record parent br a y) x).
+Proof.
+  unfold record, decl in *.
+  destruct (tmem x parent) eqn:Px; destruct (tmem y parent) eqn:Py; cbn [orb];
+    rewrite ?Px, ?Py; cbn [orb]; try reflexivity.
+  destruct (tmem x (map fst a)) eqn:Ax; destruct (tmem y (map fst a)) eqn:Ay;
+      rewrite ?Px, ?Py, ?Ax, ?Ay; cbn [orb]; rewrite ?map_app, ?tmem_app, ?Ax, ?Ay; cbn;
+      rewrite ?Ax, ?Ay; cbn; try reflexivity.
+  rewrite (text_eqb_sym y x). destruct (text_eqb x y) eqn:Exy; cbn.
+  - apply text_eqb_eq in Exy. subst. reflexivity.
+  - rewrite <- !app_assoc. apply Permutation_app_head. apply perm_swap.
+Qed.
+
+Lemma add_new_resp a a' x : Permutation a a' -> Permutation (add_new a x) (add_new a' x).
+Proof.
+  intros H. unfold add_new. rewrite (tmem_perm x a a' H).
+  destruct (tmem x a'); [exact H|]. apply Permutation_app_tail, H.
+Qed.
+
+Lemma add_new_comm a x y : Permutation (add_new (add_new a x) y) (add_new (add_new a y) x).
+Proof.
+  unfold add_new.
+  destruct (tmem x a) eqn:Ax; destruct (tmem y a) eqn:Ay;
+    rewrite ?Ax, ?Ay, ?tmem_app, ?Ax, ?Ay; cbn; try reflexivity.
+  rewrite (text_eqb_sym y x). destruct (text_eqb x y) eqn:Exy; cbn.
+  - apply text_eqb_eq in Exy. subst. reflexivity.
+  - rewrite <- !app_assoc. apply Permutation_app_head. apply perm_swap.
+Qed.
+
+Lemma promote_branch_perm s1 s2 parent br a a' :
+  perm_oracle s1 -> perm_oracle s2 -> Permutation a a' ->
+  Permutation (promote_branch s1 parent a br) (promote_branch s2 parent a' br).
+Proof.
+  intros H1 H2 Ha. unfold promote_branch.
+  apply fold_perm; [apply record_resp|apply record_comm| |exact Ha].
+  rewrite (H1 _), (H2 _). reflexivity.
+Qed.
+
+Lemma promote_if_perm_aux s1 s2 parent brs :
+  perm_oracle s1 -> perm_oracle s2 -> forall a a', Permutation a a' ->
+  Permutation (fold_left (promote_branch s1 parent) brs a) (fold_left (promote_branch s2 parent) brs a').
+Proof.
+  intros H1 H2. induction brs as [|br r IH]; cbn; intros a a' Ha; [exact Ha|].
+  apply IH. apply promote_branch_perm; assumption.
+Qed.
+
+Lemma promote_permutation s1 s2 c :
+  perm_oracle s1 -> perm_oracle s2 -> Permutation (promote s1 c) (promote s2 c).
+Proof.
+  intros H1 H2. destruct c as [parent brs|d pr]; cbn.
+  - unfold promote_if. apply promote_if_perm_aux; auto.
+  - unfold promote_loop. apply Permutation_map. unfold loop_order.
+    apply fold_perm; [apply add_new_resp|apply add_new_comm| |reflexivity].
+    rewrite (H1 _), (H2 _). reflexivity.
+Qed.
+
+(* ================================================================ the oracles the harness uses are permutation oracles *)
+Lemma insert_by_perm rk x l : Permutation (insert_by rk x l) (x :: l).
+Proof.
+  induction l as [|y r IH]; cbn; [reflexivity|].
+  destruct (rk x <=? rk y)%nat; [reflexivity|].
+  rewrite IH. apply perm_swap.
+Qed.
+
+Lemma sort_by_perm rk l : Permutation (sort_by rk l) l.
+Proof.
+  induction l as [|x r IH]; cbn; [reflexivity|].
+  rewrite insert_by_perm. constructor. exact IH.
+Qed.
+
+Lemma sigma_rank_perm : perm_family sigma_rank.
+Proof. intros o l. apply sort_by_perm. Qed.
+
+(* ================================================================ program level: refuted *)
+From Coq Require Import String.
+
+Definition n_cnd := txt "cnd"%string.
+Definition n_a := txt "alpha"%string.
+Definition n_b := txt "beta"%string.
+Definition n_c := txt "gamma"%string.
+Definition n_d := txt "delta"%string.
+Definition n_e := txt "epsilon"%string.
+
+(* cnd = 1 / if cnd > 0: alpha = 1; beta = 2; gamma = 3; delta = 4; epsilon = 5 *)
+Definition witness_prog : list item :=
+  [ IStmt (SAssign n_cnd 0);
+    IStmt (SIf [] [[SAssign n_a 0; SAssign n_b 0; SAssign n_c 0; SAssign n_d 0; SAssign n_e 0]]) ].
+
+Lemma witness_differs : transl (fun _ => sid) witness_prog <> transl (fun _ => srev) witness_prog.
+Proof. intros H. vm_compute in H. discriminate H. Qed.
+
+Lemma witness_globals :
+  map fst (o_globals (transl (fun _ => sid) witness_prog)) = [n_cnd; n_a; n_b; n_d; n_e; n_c] /\
+  map fst (o_globals (transl (fun _ => srev) witness_prog)) = [n_cnd; n_c; n_e; n_d; n_b; n_a].
+Proof. split; vm_compute; reflexivity. Qed.
+
+Lemma order_dependence_exists :
+  exists s1 s2 p, perm_family s1 /\ perm_family s2 /\ transl s1 p <> transl s2 p.
+Proof.
+  exists (fun _ => sid), (fun _ => srev), witness_prog. split; [|split].
+  - intros _. apply sid_perm.
+  - intros _. apply srev_perm.
+  - apply witness_differs.
+Qed.
+
+(* the same inside a function body (local declarations) and inside a while body whose declarations sit in a try *)
+Definition witness_prog_local : list item :=
+  [ IStmt (SAssign n_cnd 0);
+    IDef (txt "fn"%string) [SIf [] [[SAssign n_a 0; SAssign n_b 1]]] ].
+
+Lemma witness_local_differs :
+  transl (fun _ => sid) witness_prog_local <> transl (fun _ => srev) witness_prog_local.
+Proof. intros H. vm_compute in H. discriminate H. Qed.
+
+(* ================================================================ non-vacuity of the guarded theorem *)
+(* cnd = 1 / if cnd > 0: alpha = 1 / else: beta = 2.5 / while True: while cnd < 3: gamma = 1; delta = "s"
+   hoists alpha, beta (globals) and gamma, delta (locals of loop) and is inside the guard *)
+Definition guarded_prog : list item :=
+  [ IStmt (SAssign n_cnd 0);
+    IStmt (SIf [] [[SAssign n_a 0]; [SAssign n_b 1]]);
+    IMain [SWhile [] [SAssign n_c 0; SAssign n_d 3]] ].
+
+Lemma guarded_prog_ok :
+  o_ok (transl (fun _ => sid) guarded_prog) = true /\
+  o_globals (transl (fun _ => sid) guarded_prog) = [(n_cnd, 0); (n_a, 0); (n_b, 1)] /\
+  o_loop (transl (fun _ => sid) guarded_prog) =
+    [NDecl n_c 0; NDecl n_d 3; NWhile [NAssign n_c; NAssign n_d]].
+Proof. repeat split; vm_compute; reflexivity. Qed.
+
+Lemma witness_outside_guard : o_ok (transl (fun _ => sid) witness_prog) = false.
+Proof. vm_compute. reflexivity. Qed.
